@@ -97,9 +97,26 @@ def _stencils(ctx):
         if isinstance(nd, ast.Call) and isinstance(nd.func, ast.Name) and nd.func.id == "range" and len(nd.args) == 3 and isinstance(nd.args[2], ast.Name) and nd.args[2].id in consts:
             if nd.args[2].id not in steps: steps.append(nd.args[2].id)
     blockings = [None] + [(nm, 7) for nm in steps]
-    for halfp, blocking in [(h_, b_) for h_ in ((1, 2, 3, 4) if thorough else (1, 2, 3)) for b_ in blockings]:
+    # record-length thresholds: an integer (literal or module-level constant) that timeshift compares something with selects a code path by
+    # size; every such threshold adds an instance whose record is just longer than it, so that both sides of the comparison are interpreted
+    modconst = {}
+    for st_ in mod.body:
+        if isinstance(st_, ast.Assign) and len(st_.targets) == 1 and isinstance(st_.targets[0], ast.Name):
+            try: v_ = eval(compile(ast.Expression(st_.value), "<const>", "eval"), {"__builtins__": {}}, {})
+            except Exception: continue
+            if isinstance(v_, int) and not isinstance(v_, bool): modconst[st_.targets[0].id] = v_
+    sizes = [n]
+    for nd in ast.walk(fn):
+        if not isinstance(nd, ast.Compare): continue
+        for e_ in [nd.left] + list(nd.comparators):
+            v_ = e_.value if isinstance(e_, ast.Constant) and isinstance(e_.value, int) and not isinstance(e_.value, bool) else modconst.get(e_.id) if isinstance(e_, ast.Name) else None
+            if v_ is not None and v_ > n - 8 and v_ + 9 not in sizes and v_ not in [b_[1] for b_ in blockings if b_] and (e_.id if isinstance(e_, ast.Name) else None) not in steps:
+                sizes.append(v_ + 9)
+    ctx.note(f"record lengths of the stencil instances: {sizes} (thresholds taken from the comparisons in timeshift)") if hasattr(ctx, "note") else None
+    combos = [(h_, b_, n) for h_ in ((1, 2, 3, 4) if thorough else (1, 2, 3)) for b_ in blockings] + [(h_, None, n_) for n_ in sizes[1:] for h_ in ((1, 2, 3) if thorough else (2,))]
+    for halfp, blocking, n in combos:
         for shift in ((Fr(9, 4), Fr(-7, 2), Fr(3, 4), Fr(-1, 8), Fr(5), Fr(16, 3)) if thorough else (Fr(9, 4), Fr(-7, 2), Fr(3, 4))):
-            for path in ("constant", "varying"):
+            for path in ("constant", "varying", "drifting"):
                 I = Interp(repo)
                 seen = []
 
@@ -107,44 +124,74 @@ def _stencils(ctx):
                     if f.key == f"{DSP}::lagrange_taps":
                         fr = args[0]; hp = to_x(args[1])
                         seen.append((fr, hp))
-                        F = as_arr(fr)
-                        rows = F.axes[0][1] if F is not None and F.ndim == 1 else X.const(1)
+                        F = as_arr(fr) if isinstance(fr, (Arr, ArrParam, LocalArr)) else None
                         rv, kv = fresh("r"), fresh("k")
-                        return Arr([(rv, rows), (kv, X.const(2) * hp)], mk_idx("tap", [X.var(rv), X.var(kv)], "real"))
+                        # row r holds the weights for the fraction of row r: tapw(fraction, k)
+                        if F is not None and F.ndim == 1:
+                            rows = F.axes[0][1]; fb = subst_val(F.body, {F.axes[0][0]: X.var(rv)})
+                        else:
+                            rows = X.const(1); fb = fr if F is None else F.body
+                        return Arr([(rv, rows), (kv, X.const(2) * hp)], lift1(lambda d_: mk_fn("tapw", [d_, X.var(kv)]), fb))
                     return NotImplemented
                 I.hooks["call"] = call
-                I.hooks["decide"] = lambda cond: (False if cond.key[0] == "src" else None)
+                # generic instance: unmodelled tests and "all/any elements equal ..." tests are false; tolerance tests (np.allclose) are left
+                # undecided - both outcomes are interpreted, and a tolerance test establishes no equality
+                I.hooks["decide"] = lambda cond: (False if cond.key[0] in ("src", "all", "any") else None)
+                if path == "drifting":
+                    base_lib = I.hooks.get("lib")
+
+                    def lib(I_, name, args_, kw_, st_, n_, base_lib=base_lib):
+                        if name in ("numpy.floor", "math.floor") and args_:
+                            def fl(x):
+                                for a_ in x.atoms():
+                                    if a_.tag == "idx" and a_.name == "dfr":
+                                        y = x - X.atom(a_)
+                                        if y.as_int() is not None: return X.const(y.as_int())
+                                raise Unknown("floor of a symbolic value")
+                            return lift1(fl, args_[0])
+                        return base_lib(I_, name, args_, kw_, st_, n_) if base_lib else NotImplemented
+                    I.hooks["lib"] = lib
                 if blocking: I.module_globals(DSP)[blocking[0]] = X.const(blocking[1])
                 data = ArrParam("dat", kind="complex", shape=(X.const(n),))
-                sh = X.const(shift) if path == "constant" else Arr([(fresh("i"), X.const(n))], X.const(shift))
-                c = f"{key}[{path} shift {shift}, order {2 * halfp - 1}" + (f", {blocking[0]}={blocking[1]}" if blocking else "") + "]"
+                import math
+                si = math.floor(shift)
+                iv_ = fresh("i")
+                # 'drifting': every sample has its own fractional part dfr[i] in [0, 1) on top of the integer part of the instance's shift
+                sh = X.const(shift) if path == "constant" else Arr([(iv_, X.const(n))], X.const(shift) if path == "varying" else X.const(si) + mk_idx("dfr", [X.var(iv_)], "real"))
+                c = f"{key}[{path} shift {shift}, order {2 * halfp - 1}" + (f", {blocking[0]}={blocking[1]}" if blocking else "") + (f", record of {n}" if n != sizes[0] else "") + "]"
                 try:
                     r = I.call_key(key, [data, sh], {"order": X.const(2 * halfp - 1)}, St())
                 except Unknown as ex:
                     ctx.unknown("R2-stencil-alignment", c, str(ex), where); continue
-                if isinstance(r, LocalArr):
-                    from ..values import local_to_arr
-                    r = local_to_arr(r, None) or Opaque("output array only partially filled")
-                A = as_arr(r) if not is_opaque(r) and r is not None else None
-                if A is None or A.ndim != 1:
-                    ctx.ob("R2-stencil-alignment", c, VIOLATED if isinstance(r, Mismatch) else UNKNOWN, f"result not recognised: {r!r}"[:200], where); continue
-                import math
-                si = math.floor(shift)
                 # the fractional part handed to the tap builder
-                if seen:
+                if seen and path != "drifting":
                     fr = seen[0][0]
                     fx = to_x(fr) if to_x(fr) is not None else (to_x(as_arr(fr).body) if as_arr(fr) is not None else None)
                     if fx is None or not fx.eq(X.const(shift - si)):
                         ctx.violated("R2-integer-fraction-split", c, f"fractional part handed to the tap builder is {fr!r}, expected shift - floor(shift) = {shift - si}", where); continue
-                ok = True; detail = ""
-                for m in range(halfp + 4, n - halfp - 5):
-                    g = subst_val(A.body, {A.axes[0][0]: X.const(m)})
-                    gx = to_x(g) if not isinstance(g, PV) and not is_opaque(g) else None
-                    row = X.const(0) if path == "constant" else X.const(m)
-                    want = X.const(0)
-                    for k in range(2 * halfp):
-                        want = want + mk_idx("dat", [X.const(m + si - (halfp - 1) + k)], "complex") * mk_idx("tap", [row, X.const(k)], "real")
-                    if gx is None or not gx.eq(want):
-                        ok = False; detail = f"output sample {m}: {g!r} instead of {want!r}"[:300]; break
-                (ctx.holds if ok else ctx.violated)("R2-stencil-alignment", c, "tap k meets data[n + floor(s) - (halfp-1) + k] for interior n" if ok else
-                                                    "stencil misaligned: " + detail, where)
+                verdict = HOLDS; detail = ""
+                for rpath, r1 in pv_leaves(r):
+                    if isinstance(r1, LocalArr):
+                        from ..values import local_to_arr
+                        r1 = local_to_arr(r1, None) or Opaque("output array only partially filled")
+                    A = as_arr(r1) if not is_opaque(r1) and r1 is not None else None
+                    on = f" (on the path [{path_text(rpath)}])" if rpath else ""
+                    if A is None or A.ndim != 1:
+                        verdict = VIOLATED if isinstance(r1, Mismatch) else (UNKNOWN if verdict == HOLDS else verdict)
+                        detail = f"result not recognised: {r1!r}"[:200] + on; 
+                        if verdict == VIOLATED: break
+                        continue
+                    interior = range(halfp + 4, n - halfp - 5)
+                    if len(interior) > 40: interior = sorted(set(list(interior[:8]) + list(interior[len(interior) // 2 - 4:len(interior) // 2 + 4]) + list(interior[-8:])))
+                    for m in interior:
+                        g = subst_val(A.body, {A.axes[0][0]: X.const(m)})
+                        gx = to_x(g) if not isinstance(g, PV) and not is_opaque(g) else None
+                        frac = mk_idx("dfr", [X.const(m)], "real") if path == "drifting" else X.const(shift - si)
+                        want = X.const(0)
+                        for k in range(2 * halfp):
+                            want = want + mk_idx("dat", [X.const(m + si - (halfp - 1) + k)], "complex") * mk_fn("tapw", [frac, X.const(k)])
+                        if gx is None or not gx.eq(want):
+                            verdict = VIOLATED if gx is not None else UNKNOWN
+                            detail = f"stencil misaligned: output sample {m}: {g!r} instead of {want!r}"[:300] + on; break
+                    if verdict != HOLDS: break
+                ctx.ob("R2-stencil-alignment", c, verdict, "tap k of the weights for this sample's own fraction meets data[n + floor(s) - (halfp-1) + k] for interior n" if verdict == HOLDS else detail, where)
